@@ -3,6 +3,7 @@ package server
 import (
 	"context"
 	"fmt"
+	"sort"
 	"testing"
 	"time"
 
@@ -712,5 +713,171 @@ func TestVerifC02(t *testing.T) {
 		}
 		srv.stop()
 	}
+	out.emit(vM{"k": "stat", "dist": stats})
+}
+
+// TestVerifC02ExpandByTime replays, on the real leader with its real replicator timers (max lag time 1 s),
+// the history of Repl.FallbackProofs.expansion_by_time_loses_committed: replica c is at the log end, falls
+// silent and is removed from the in-sync set by the leader's own tick; it reports the log end once more;
+// two messages are then committed by a and b; the tick -- c was seen, and at the log end, within the last
+// second -- adds c back while it is two messages behind the HW; c is elected.
+func TestVerifC02ExpandByTime(t *testing.T) {
+	out := vOpenOut()
+	defer out.close()
+	stats := map[string]int{}
+	srv := vStartServer("a", func(cfg *Config) {
+		vPartConfig(1)(cfg)
+		cfg.Clustering.ReplicaMaxLagTime = time.Second
+		cfg.Clustering.ReplicaMaxIdleWait = 4 * time.Second
+		cfg.Clustering.ReplicaMaxLeaderTimeout = time.Hour
+		cfg.Clustering.ReplicaFetchTimeout = 2 * time.Second
+	})
+	defer srv.stop()
+	v, err := vNewPart(srv, "xt", []string{"a", "b", "c"}, nil)
+	if err != nil {
+		t.Fatal(err)
+	}
+	defer v.close()
+	simC := vNewSimLeader(v, "c")
+	defer simC.close()
+	_, e1 := v.p.GetLeader()
+	logs := map[string][][]uint64{"b": {}, "c": {}}
+	var steps []vM
+	part := func() *partition { return srv.s.metadata.GetPartition("xt", 0) }
+	leader := "a"
+	epoch := e1
+	observe := func(step vM) {
+		p := part()
+		if leader == "a" {
+			v.p = p
+			v.settle()
+		} else {
+			time.Sleep(300 * time.Millisecond)
+		}
+		la := [][]uint64{}
+		for _, e := range vLogDump(p) {
+			var id uint64
+			fmt.Sscanf(e["v"].(string), "v%d", &id)
+			la = append(la, []uint64{e["ep"].(uint64), id})
+		}
+		isr := p.GetISR()
+		sort.Strings(isr)
+		view := map[string]int64{}
+		if leader == "a" {
+			view = v.isrOffsets()
+		}
+		step["leader"], step["epoch"], step["isr"] = leader, epoch, isr
+		step["logs"] = vM{"a": la, "b": append([][]uint64{}, logs["b"]...), "c": append([][]uint64{}, logs["c"]...)}
+		step["hws"] = vM{"a": p.log.HighWatermark()}
+		step["view"] = view
+		steps = append(steps, step)
+	}
+	inISR := func(r string) bool {
+		for _, x := range part().GetISR() {
+			if x == r {
+				return true
+			}
+		}
+		return false
+	}
+	nextID := uint64(0)
+	publish := func(pol client.AckPolicy) {
+		id := nextID
+		nextID++
+		v.publish(fmt.Sprintf("p%d", id), nil, []byte(fmt.Sprintf("v%d", id)), pol, -1)
+		observe(vM{"op": "publish", "v": id})
+	}
+	// a follower's fetch: it reports its log end, then holds up to n more of the leader's messages
+	fetch := func(r string, n int) {
+		v.follower(r, int64(len(logs[r]))-1)
+		v.settle()
+		la := vLogDump(part())
+		for i := 0; i < n && len(logs[r]) < len(la); i++ {
+			e := la[len(logs[r])]
+			var id uint64
+			fmt.Sscanf(e["v"].(string), "v%d", &id)
+			logs[r] = append(logs[r], []uint64{e["ep"].(uint64), id})
+			if r == "c" {
+				simC.appendMsg(e["ep"].(uint64), e["v"].(string))
+			}
+		}
+		observe(vM{"op": "fetch", "r": r, "n": n})
+	}
+	heartbeatB := func() { v.follower("b", int64(len(logs["b"]))-1) }
+	observe(vM{"op": "start"})
+	publish(client.AckPolicy_LEADER)
+	fetch("b", 1)
+	fetch("b", 0)
+	fetch("c", 1)
+	fetch("c", 0) // everybody holds message 0: committed
+	// c falls silent; b keeps reporting; the leader's tick removes c
+	removed := false
+	for i := 0; i < 40 && !removed; i++ {
+		heartbeatB()
+		time.Sleep(100 * time.Millisecond)
+		removed = !inISR("c")
+	}
+	verdict := vM{"k": "expand-by-time", "removed_by_tick": removed}
+	if removed {
+		observe(vM{"op": "shrink", "r": "c"})
+		fetch("c", 0) // c is seen again, at the log end
+		publish(client.AckPolicy_ALL)
+		publish(client.AckPolicy_ALL)
+		fetch("b", 2)
+		fetch("b", 0) // a and b, the whole in-sync set, hold messages 1 and 2: committed and acknowledged
+		hw, acks := part().log.HighWatermark(), v.ackCount()
+		if inISR("c") || !inISR("b") || hw != 2 {
+			// the tick came before the two messages were committed (a slow machine): c was admitted at the log end,
+			// which is not the history this scenario is about
+			verdict["inconclusive"] = true
+			out.emit(verdict)
+			out.emit(vM{"k": "stat", "dist": stats})
+			return
+		}
+		readded := false
+		for i := 0; i < 30 && !readded; i++ {
+			heartbeatB()
+			time.Sleep(100 * time.Millisecond)
+			readded = inISR("c")
+		}
+		verdict["hw_before_readmission"], verdict["acks_before_readmission"], verdict["c_log_end"], verdict["readmitted_by_tick"] = hw, acks, len(logs["c"])-1, readded
+		if readded && !inISR("b") {
+			verdict["inconclusive"] = true
+			readded = false
+		}
+		if readded {
+			stats["scenario/readmitted-behind-hw"]++
+			observe(vM{"op": "expand-behind", "r": "c"})
+			simC.mu.Lock()
+			simC.hw, simC.hwSent, simC.gated, simC.budget = 0, 0, true, -1
+			simC.mu.Unlock()
+			e2, err := simC.lead()
+			if err != nil {
+				t.Fatal(err)
+			}
+			leader, epoch = "c", e2
+			observe(vM{"op": "elect", "r": "c", "e": e2})
+			deadline := time.Now().Add(5 * time.Second)
+			for time.Now().Before(deadline) {
+				simC.mu.Lock()
+				asked := len(simC.asked)
+				simC.mu.Unlock()
+				if asked > 0 {
+					break
+				}
+				time.Sleep(5 * time.Millisecond)
+			}
+			observe(vM{"op": "reconcile", "r": "a"})
+			la := vLogDump(part())
+			verdict["leader_c_log_end"], verdict["a_log_end_after_reconcile"] = len(logs["c"])-1, len(la)-1
+			if int64(len(logs["c"])-1) < hw {
+				cj := vM{"k": "repl", "id": "expand-by-time", "minisr": 1, "steps": steps}
+				out.emit(vM{"k": "violation", "sig": "committed-message-lost:after-time-based-readmission", "case": cj,
+					"what": fmt.Sprintf("offsets %d..%d were committed (acknowledged under the ALL policy, HW %d) while the in-sync set was {a, b}; the leader's tick then put c back into the in-sync set with its log ending at %d, c was elected, and neither the leader c nor a (cut back to %d) holds them", len(logs["c"]), hw, hw, len(logs["c"])-1, len(la)-1)})
+			}
+		}
+	}
+	out.emit(vM{"k": "repl", "id": "expand-by-time", "minisr": 1, "steps": steps, "scenario": true})
+	out.emit(verdict)
 	out.emit(vM{"k": "stat", "dist": stats})
 }
